@@ -34,6 +34,7 @@ type vFS struct {
 	sets    []map[string][]byte // file sets of all Write calls issued so far
 	everPresent bool
 	clock   int64
+	foreign bool // Write is driven by other code (the C19 harness through the SPIFFE type): the caller checks the contents
 }
 
 type vCrash struct{}
@@ -208,12 +209,25 @@ func vInvariant() {
 	}
 	fs.everPresent = true
 	zzverif.Assert(isDir, "target_resolves_to_directory")
+	if fs.foreign {
+		return
+	}
 	match := false
 	for _, s := range fs.sets {
 		match = zzverif.Or(match, vSameSet(files, s))
 	}
 	zzverif.Assert(match, "target_holds_exactly_one_complete_set")
 }
+
+// ---- entry points for the C19 harness (package spiffe), which drives dir.Write through SPIFFE.fetchIdentityCertificate
+
+func VerifFSInit() {
+	fs = &vFS{nodes: map[string]*vNode{"/": {kind: 1}}, crashAt: -1, foreign: true}
+}
+func VerifFSResolve() (map[string][]byte, bool, bool) { return vResolve() }
+func VerifFSVersionDirs() int                          { return vVersionDirs() }
+
+const VerifFSTarget = vTarget
 
 func vVersionDirs() int {
 	n := 0
